@@ -767,7 +767,12 @@ class ViewRepresentation(OperatorPlatform, abc.ABC):
             check_all_common_keys_in_equi_spec or check_all_common_keys_in_by
         )
         if self.is_trivial_when_intermediate_():
-            return self.sources[0].natural_join(b, on=on, jointype=jointype)
+            return self.sources[0].natural_join(
+                b,
+                on=on,
+                jointype=jointype,
+                check_all_common_keys_in_equi_spec=check_all_common_keys_in_equi_spec,
+            )
         return NaturalJoinNode(
             a=self,
             b=b,
